@@ -217,7 +217,10 @@ pub fn value_to_tokens(value: &ASN1Value) -> Result<String, GeneratorError> {
             value,
         } => Ok(value.to_string()),
         ASN1Value::LinkedCharStringValue(_, value) => Ok(format!(r#""{value}""#)),
-        ASN1Value::All => todo!(),
+        ASN1Value::All => Err(GeneratorError {
+            details: "ALL values are not supported.".into(),
+            ..Default::default()
+        }),
     }
 }
 
